@@ -1027,6 +1027,12 @@ def replay(prop, path):
             print("VIOLATION property=%s replay=%s no-failing-input-found" % (prop, path))
             return 1
         return 0
+    api0 = case.split(" ", 1)[0]
+    if api0 not in spec.ORACLES or case.startswith("--") or obj.get("config") in ("tsan", "vg", "oom"):
+        # found by a custom runner (threads / histories / allocation plans):
+        # the replay is the runner itself on the current tree with the same seed
+        print("replay: re-running the %s runner with seed %s" % (prop, obj.get("seed")))
+        return Check(prop, obj.get("tier") or "quick", obj.get("seed", 0)).run()
     ok, lg, mdrv, _ = coq_setup()
     b, d = build_c_driver(obj.get("config") or "pinned", getattr(spec, "EXTRA_CFLAGS", ""))
     try:
